@@ -3,6 +3,7 @@ package engine
 // Stubs for runtime-linked / reflection-heavy library functions.
 
 import (
+	"crypto/sha256"
 	"fmt"
 	"go/token"
 	"go/types"
@@ -153,5 +154,91 @@ func init() {
 		"time.now":         func(fr *frame, a []value) value { return tuple{int64(0), int32(0), int64(0)} },
 	} {
 		externals[k] = v
+	}
+}
+
+func byteCells(v value) []value {
+	switch v := v.(type) {
+	case []value:
+		return v
+	case string, symStr:
+		return strCells(v)
+	case nil:
+		return nil
+	}
+	panic(fmt.Sprintf("byteCells %T", v))
+}
+
+func init() {
+	cmp := func(fr *frame, a []value) value {
+		C := fr.i.m.C
+		fr.i.ltPoison = false
+		lt, eq := fr.i.cmpCells(byteCells(a[0]), byteCells(a[1]))
+		if fr.i.ltPoison {
+			unsup("ordering comparison involving an opaque codec token")
+		}
+		t := C.Ite(lt, C.ConstI(-1), C.Ite(eq, C.ConstI(0), C.ConstI(1)))
+		return fr.i.wrapK(t, types.Int)
+	}
+	eq := func(fr *frame, a []value) value {
+		_, e := fr.i.cmpCells(byteCells(a[0]), byteCells(a[1]))
+		return fr.i.boolv(e)
+	}
+	indexByte := func(fr *frame, a []value) value {
+		cells := byteCells(a[0])
+		for j, c := range cells {
+			if fr.i.condBool(fr.i.eqv(types.Typ[types.Uint8], c, a[1])) {
+				return j
+			}
+		}
+		return -1
+	}
+	for k, v := range map[string]externalFn{
+		"internal/bytealg.Compare":         cmp,
+		"bytes.Compare":                    cmp,
+		"strings.Compare":                  cmp,
+		"internal/bytealg.Equal":           eq,
+		"bytes.Equal":                      eq,
+		"internal/bytealg.IndexByte":       indexByte,
+		"internal/bytealg.IndexByteString": indexByte,
+		"bytes.IndexByte":                  indexByte,
+		"strings.IndexByte":                indexByte,
+	} {
+		externals[k] = v
+	}
+}
+
+func init() {
+	externals["internal/bytealg.MakeNoZero"] = func(fr *frame, a []value) value {
+		n := fr.i.idx(a[0])
+		out := make([]value, n)
+		for j := range out {
+			out[j] = uint8(0)
+		}
+		return out
+	}
+}
+
+func init() {
+	clone := func(fr *frame, a []value) value {
+		it := a[0].(iface)
+		return iface{t: it.t, v: deepCopy(it.v)}
+	}
+	externals["github.com/gogo/protobuf/proto.Clone"] = clone
+	externals["github.com/golang/protobuf/proto.Clone"] = clone
+}
+
+func init() {
+	externals["crypto/sha256.Sum256"] = func(fr *frame, a []value) value {
+		raw, ok := concBytes(a[0])
+		if !ok {
+			unsup("sha256 of symbolic bytes")
+		}
+		h := sha256.Sum256(raw)
+		out := make(array, 32)
+		for j := range out {
+			out[j] = h[j]
+		}
+		return out
 	}
 }
